@@ -48,9 +48,9 @@ CLAIMED = {
         note="Trusted: Verus/Z3; uninterpreted CodegenConfig reads; type-edge table from the Trace impls; storage = set and queue = bag trait contracts; Trace impls call visit_kind once per outgoing edge. Unverified: the Trace impls themselves (completeness of the reported references), regex anchoring/matching, the unnamed-enum variant path loop, textual identity with the un-allowlisted run.",
         ref="DESIGN.md §3 C09"),
     "C10": dict(
-        technique="Verus contracts on extracted Item::is_blocklisted, CannotDerive::constrain_type (blocklisted rule first), helpers::blob / Layout::known_type_for_size / for_size_internal",
-        text="Deductive proof that (a) the blocklist test is exactly: hidden, in a blocklisted file, matched by the generic item list or by the list of the kind of the item, or a replaced type; (b) a type outside the allowlisted set derives a trait only as far as the callback of the user vouches, before any other rule; (c) the opaque blob emitted for any layout libclang can report has exactly that size and alignment.",
-        note="Trusted: as C02/C08; regex matching and path computation uninterpreted. Unverified: that every codegen entry point consults is_blocklisted, IsOpaque, tracing cut-off at opaque types, the body of blocklisted_type_implements_trait.",
+        technique="Verus contracts on extracted Item::is_blocklisted, Item/Type::is_opaque, CannotDerive::constrain_type (blocklisted rule first), helpers::blob / Layout::known_type_for_size / for_size_internal, the opaque branch of CompInfo::codegen's tail",
+        text="Deductive proof that (a) the blocklist test is exactly: hidden, in a blocklisted file, matched by the generic item list or by the list of the kind of the item, or a replaced type; (b) a type outside the allowlisted set derives a trait only as far as the callback of the user vouches, before any other rule; (c) the opaque blob emitted for any layout libclang can report has exactly that size and alignment; (d) an item is opaque exactly by annotation, by an --opaque-type match or through its type; (e) an opaque record is emitted as exactly one blob field of the C size/alignment with repr(align).",
+        note="Trusted: as C02/C08; regex matching and path computation uninterpreted. Unverified: that every codegen entry point consults is_blocklisted, CompInfo::is_opaque / TemplateInstantiation::is_opaque bodies, tracing cut-off at opaque types, the body of blocklisted_type_implements_trait.",
         ref="DESIGN.md §3 C10"),
     "C12": dict(
         technique="Verus/Kani safety obligations (overflow, underflow, unwrap, run-time assert!/unreachable!, callee preconditions, termination) of every function under contract; concrete Kani witnesses for from_str",
